@@ -28,6 +28,7 @@ import traceback
 
 from hypothesis import strategies as st
 
+from vp.core import env
 from vp.core.acc import Acc
 from vp.core.hyp import campaign, Outcome, Budget
 from vp.net import httpgen, http_doubles
@@ -102,6 +103,9 @@ def arrivals(sched, data):
     return out, r
 
 
+PRIOR = b"POST /prior?big=1 HTTP/1.1\r\nHost: h\r\nContent-Length: 4000\r\n\r\n" + b"p" * 4000
+
+
 def run_server(case, with_bad):
     """-> dict(exc=[(round, sig, msg)], good=[(sent bytes, done round)], bad=state dict)"""
     conns = []      # (role, data, sched, close_round)
@@ -109,12 +113,20 @@ def run_server(case, with_bad):
     for pos in range(3):
         if pos == case["bad_pos"]:
             if with_bad:
-                conns.append(("bad", bytes(case["bad"]["data"]), case["bad"]["sched"], case["bad"]["close"]))
+                data = bytes(case["bad"]["data"])
+                if case["bad"].get("prior"):
+                    # the bad peer first sends a valid keep-alive request with a large answer and does not read that
+                    # answer (it stays queued on the server side); the damaged bytes follow on the same connection
+                    data = PRIOR + data
+                conns.append(("bad", data, case["bad"]["sched"], case["bad"]["close"]))
         else:
             g = case["good"][gi]
             gi += 1
             conns.append(("good", bytes(g["wire"]), g["sched"], None))
     valet, socks = http_doubles.make_valet(app, len(conns))
+    for i, (role, data, sched, close) in enumerate(conns):
+        if role == "bad" and case["bad"].get("prior"):
+            socks[i].stall_after = 64
     plans = []
     last = 0
     for role, data, sched, close in conns:
@@ -185,7 +197,13 @@ def check_response(spec, sent):
 def check_server(case):
     fails = []
     ref = run_server(case, with_bad=False)
-    got = run_server(case, with_bad=True)
+    try:
+        with env.cpu_watchdog(4):        # (the whole scene normally takes milliseconds)
+            got = run_server(case, with_bad=True)
+    except env.Hang:
+        return [("service-never-returns", "the server scene used more than 4 s of CPU: a service or close call of the Valet never "
+                 "returned (bad input %r, %s%s)" % (bytes(case["bad"]["data"])[:80], case["bad"]["mut"],
+                                                   ", behind an unread queued answer" if case["bad"].get("prior") else ""))]
     if ref["exc"]:
         rnd, sig, msg = ref["exc"][0]
         return [("healthy-only:" + sig, "serviceAll raised with only the two valid connections: %s" % msg)]
@@ -310,6 +328,7 @@ def server_case(draw):
     bad["sched"] = draw(schedule(len(bad["data"])))
     bad["close"] = draw(st.one_of(st.none(), st.integers(0, 3)))
     bad.pop("truth", None)
+    bad["prior"] = draw(st.integers(0, 3)) == 0
     return {"scene": "server", "bad_pos": draw(st.integers(0, 998)) % 3, "good": goods, "bad": bad}
 
 
@@ -388,7 +407,8 @@ def work(shard, seed, tier):
             mut, nt, data = case["bad"]["mut"], case["bad"]["nt"], bytes(case["bad"]["data"])
             key = ("s", data, repr(case["bad"]["sched"]), case["bad"]["close"], case["bad_pos"],
                    bytes(case["good"][0]["wire"]), bytes(case["good"][1]["wire"]))
-            classes = ["server", "server:" + mut, "bad-pos:%d" % case["bad_pos"],
+            classes = ["server", "server:" + mut, "bad-pos:%d" % case["bad_pos"]] + (
+                ["server:damage-behind-an-unread-queued-answer"] if case["bad"].get("prior") else []) + [
                        "bad-peer-closes" if case["bad"]["close"] is not None else "bad-peer-stays"]
             sample = {"scene": "server", "mut": mut, "bad": data[:120], "bad_pos": case["bad_pos"],
                       "good": [bytes(g["wire"])[:60] for g in case["good"]]}
